@@ -59,6 +59,9 @@ ObsInit == [
     disc     |-> [op |-> 0, t |-> 0, rc |-> 0, dig |-> "", len |-> 0, maxpkt |-> 0,
                   c |-> 0, wrote |-> FALSE, doneT |-> -1],
     deliv    |-> << >>,        \* messages handed to async_receive, in order
+    bmsgs    |-> EmptyFn,      \* broker message token -> [k (first transmission), qos]
+    q2done   |-> {},           \* broker QoS 2 messages whose exchange completed (PUBCOMP received)
+    q1acked  |-> {},           \* broker QoS 1 messages acknowledged by the client
     subOk    |-> FALSE,        \* a subscription succeeded since start / last session_expired report
     owed     |-> 0,            \* session_expired reports owed and not yet delivered
     expired  |-> 0,            \* session_expired reports delivered
@@ -82,6 +85,7 @@ OpOfPkt(o, p) ==
     ELSE {}
 
 ConnOk(o, c) == c \in DOMAIN o.conn /\ o.conn[c].cack = 1
+KOf(o, cr) == IF cr.ska >= 0 THEN cr.ska ELSE o.ka          \* negotiated keep-alive of a connection (seconds)
 
 CancelledByCaller(o, id) == o.ops[id].cancelled \/ o.terminal \/ o.ops[id].atTerminal
 
@@ -184,7 +188,10 @@ NewConn(e) == [host |-> e.host, a |-> e.a, t0 |-> e.t, cack |-> 0, tCack |-> -1,
                infl |-> {},            \* C07: ids of PUBLISH QoS>0 received and not yet acknowledged
                ords |-> << >>,         \* C06: initiation order numbers of the PUBLISH packets written
                pingT |-> << >>,        \* C12: times PINGREQ was handed to the transport
-               lastWriteEnd |-> -1,
+               lastWriteEnd |-> -1, lastWriteStart |-> -1,   \* start/end of the write that ended last
+               tEst |-> e.t,           \* C12: when the client finished reading the CONNACK (last read before its 2nd packet)
+               pingBase |-> -1,        \* C12: end of the write of the last PINGREQ
+               pingW |-> 0,            \* write id carrying the last PINGREQ
                discSeen |-> FALSE,     \* a DISCONNECT was written on this connection
                bpub |-> << >>,         \* C04: broker's QoS>0 PUBLISH not yet acknowledged [pid, qos, msg, state]
                relOwed |-> {}          \* C04: PUBREL sent to the client and not yet answered
@@ -241,6 +248,7 @@ StepPkt(o, e) ==   \* c_pkt: one packet handed to the transport by the client
            cr1 == [cr EXCEPT !.npkt = cr.npkt + 1,
                              !.discSeen = cr.discSeen \/ e.type = "DISCONNECT",
                              !.pingT = IF e.type = "PINGREQ" THEN Append(cr.pingT, e.t) ELSE cr.pingT,
+                             !.pingW = IF e.type = "PINGREQ" THEN e.w ELSE cr.pingW,
                              !.ords = IF e.type = "PUBLISH" /\ ids # {}
                                         THEN Append(cr.ords, [ord |-> o.ops[Min(ids)].ord, qos |-> e.qos])
                                         ELSE cr.ords]
@@ -261,7 +269,10 @@ StepBRecv(o, e) ==
                       THEN [x \in DOMAIN cr.bpub |-> IF cr.bpub[x].pid = e.pid THEN [cr.bpub[x] EXCEPT !.state = 1] ELSE cr.bpub[x]]
                     ELSE cr.bpub
            rel1 == IF e.type = "PUBCOMP" THEN cr.relOwed \ {e.pid} ELSE cr.relOwed
-       IN [o1 EXCEPT !.conn[c] = [cr EXCEPT !.nrecv = cr.nrecv + 1, !.infl = infl1, !.bpub = bpub1, !.relOwed = rel1]]
+           ackd == {cr.bpub[x].msg : x \in {y \in DOMAIN cr.bpub : cr.bpub[y].pid = e.pid}}
+       IN [o1 EXCEPT !.conn[c] = [cr EXCEPT !.nrecv = cr.nrecv + 1, !.infl = infl1, !.bpub = bpub1, !.relOwed = rel1],
+                     !.q2done = IF e.type = "PUBCOMP" THEN o.q2done \cup {cr.bpub[x].msg : x \in {y \in DOMAIN cr.bpub : cr.bpub[y].pid = e.pid /\ cr.bpub[y].qos = 2 /\ cr.bpub[y].state = 1}} ELSE o.q2done,
+                     !.q1acked = IF e.type = "PUBACK" THEN o.q1acked \cup {cr.bpub[x].msg : x \in {y \in DOMAIN cr.bpub : cr.bpub[y].pid = e.pid /\ cr.bpub[y].qos = 1}} ELSE o.q1acked]
 
 StepBSend(o, e) ==
     LET o1 == [o EXCEPT !.sent = Append(o.sent, e)]
@@ -280,8 +291,10 @@ StepBSend(o, e) ==
                           !.newSess = IF owe THEN TRUE ELSE o.newSess]
        ELSE IF e.type \in {"PUBACK", "PUBCOMP"} \/ (e.type = "PUBREC" /\ e.rc >= 128)
             THEN [o1 EXCEPT !.conn[c].infl = cr.infl \ {e.pid}]
-       ELSE IF e.type = "PUBLISH" /\ e.qos > 0
-            THEN [o1 EXCEPT !.conn[c].bpub = Append(cr.bpub, [pid |-> e.pid, qos |-> e.qos, msg |-> e.msg, state |-> 0])]
+       ELSE IF e.type = "PUBLISH"
+            THEN LET o2 == IF e.msg \in DOMAIN o.bmsgs THEN o1 ELSE [o1 EXCEPT !.bmsgs = Upd(o.bmsgs, e.msg, [k |-> e.k, qos |-> e.qos])]
+                 IN IF e.qos > 0 THEN [o2 EXCEPT !.conn[c].bpub = Append(cr.bpub, [pid |-> e.pid, qos |-> e.qos, msg |-> e.msg, state |-> 0])]
+                    ELSE o2
        ELSE IF e.type = "PUBREL"
             THEN [o1 EXCEPT !.conn[c].relOwed = cr.relOwed \cup {e.pid}]
        ELSE o1
@@ -317,7 +330,12 @@ ObsStep(o, e) ==
       [] e.e = "c_write"    -> [o EXCEPT !.wr = Upd(o.wr, e.w, [c |-> e.c, res |-> 0, pk |-> e.pk, t |-> e.t])]
       [] e.e = "c_write_end" -> LET o1 == IF e.w \in DOMAIN o.wr
                                             THEN [o EXCEPT !.wr[e.w].res = IF e.ec = "ok" THEN 1 ELSE 2] ELSE o
-                                IN IF e.c \in DOMAIN o.conn THEN [o1 EXCEPT !.conn[e.c].lastWriteEnd = e.t] ELSE o1
+                                IN IF e.c \in DOMAIN o.conn
+                                     THEN [o1 EXCEPT !.conn[e.c].lastWriteEnd = e.t,
+                                                     !.conn[e.c].lastWriteStart = IF e.w \in DOMAIN o.wr THEN o.wr[e.w].t ELSE e.t,
+                                                     !.conn[e.c].pingBase = IF o.conn[e.c].pingW = e.w THEN e.t ELSE @]
+                                     ELSE o1
+      [] e.e = "c_read_end" -> IF e.c \in DOMAIN o.conn /\ o.conn[e.c].npkt <= 1 THEN [o EXCEPT !.conn[e.c].tEst = e.t] ELSE o
       [] e.e = "c_pkt"      -> StepPkt(o, e)
       [] e.e = "b_recv"     -> StepBRecv(o, e)
       [] e.e = "b_send"     -> StepBSend(o, e)
@@ -364,6 +382,12 @@ DoneClauses(o, e) ==
     \cup (IF op.kind = "recv" /\ e.ec = "ok" /\ ~\E j \in DOMAIN o.sent :
                  o.sent[j].type = "PUBLISH" /\ o.sent[j].msg = e.msg /\ o.sent[j].pdig = e.dig
             THEN {"C04_d_DeliveredContentDiffers"} ELSE {})
+    \* C04_g: within one QoS level, first deliveries follow the order of the broker's first transmissions
+    \cup (IF op.kind = "recv" /\ e.ec = "ok" /\ e.msg \in DOMAIN o.bmsgs /\ ~(\E x \in DOMAIN o.deliv : o.deliv[x].msg = e.msg)
+             /\ \E x \in DOMAIN o.deliv : /\ o.deliv[x].msg \in DOMAIN o.bmsgs
+                                          /\ o.bmsgs[o.deliv[x].msg].qos = o.bmsgs[e.msg].qos
+                                          /\ o.bmsgs[o.deliv[x].msg].k > o.bmsgs[e.msg].k
+            THEN {"C04_g_DeliveredOutOfOrder"} ELSE {})
     \cup (IF op.kind = "recv" /\ e.ec = "ok" /\ (\E j \in DOMAIN o.sent : o.sent[j].type = "PUBLISH" /\ o.sent[j].msg = e.msg /\ o.sent[j].qos = 2)
              /\ \E x \in DOMAIN o.deliv : o.deliv[x].msg = e.msg
             THEN {"C04_e_Qos2DeliveredTwice"} ELSE {})
@@ -412,6 +436,13 @@ PktClauses(o, e) ==
             THEN {"C06_a_PublishOutOfOrder"} ELSE {})
     \* C15: nothing on the wire for a request that exceeds the capabilities
     \cup (IF ids # {} /\ o.ops[Min(ids)].app # {} THEN {"C15_b_RejectedRequestOnWire"} ELSE {})
+    \* C12: a PINGREQ is handed over no later than K after the CONNACK was read / the previous PINGREQ was written,
+    \* unless a write that started before that deadline was still in progress (it is then handed over when that write ends)
+    \cup (IF known /\ e.type = "PINGREQ" /\ KOf(o, cr) > 0
+             /\ LET base == IF cr.pingBase >= 0 THEN cr.pingBase ELSE cr.tEst
+                     dl == base + 1000 * KOf(o, cr)
+                 IN e.t > dl /\ ~(cr.lastWriteEnd = e.t /\ cr.lastWriteStart <= dl)
+            THEN {"C12_a_PingLate"} ELSE {})
     \* C12: no PINGREQ with keep-alive 0
     \cup (IF known /\ e.type = "PINGREQ" /\ (IF cr.ska >= 0 THEN cr.ska ELSE o.ka) = 0 THEN {"C12_c_PingWithKeepAliveZero"} ELSE {})
 
@@ -496,6 +527,13 @@ QuiesceClauses(o, e) ==
             THEN {"C04_c_PubrelNotAnswered"} ELSE {})
     \cup (IF ~o.terminal /\ o.owed > 0 /\ \E id \in OpIds(o) : o.ops[id].kind = "recv" /\ o.ops[id].done = 0
             THEN {"C13_a_SessionExpiredNotReported"} ELSE {})
+    \* (an async_receive is still pending, so everything the client stored has been handed over)
+    \cup (IF ~o.terminal /\ (\E id \in OpIds(o) : o.ops[id].kind = "recv" /\ o.ops[id].done = 0)
+             /\ \E m \in o.q2done : Cardinality({x \in DOMAIN o.deliv : o.deliv[x].msg = m}) # 1
+            THEN {"C04_e_Qos2NotDeliveredExactlyOnce"} ELSE {})
+    \cup (IF ~o.terminal /\ (\E id \in OpIds(o) : o.ops[id].kind = "recv" /\ o.ops[id].done = 0)
+             /\ \E m \in o.q1acked : ~\E x \in DOMAIN o.deliv : o.deliv[x].msg = m
+            THEN {"C04_f_Qos1AcknowledgedButNotDelivered"} ELSE {})
 
 \* ---- after cancel() / a finished async_disconnect / destruction: everything drained
 DrainClauses(o, e) ==
@@ -505,15 +543,38 @@ DrainClauses(o, e) ==
     \cup (IF o.terminal /\ (e.timers # 0 \/ e.pending # 0) THEN {"C05_d_TimerOrIoLeftAfterCancel"} ELSE {})
     \cup (IF o.terminal /\ undoneAny = {} /\ e.stopped # 1 THEN {"C05_d_ContextStillHasWork"} ELSE {})
 
+\* ---- when a read of the client ends
+ReadClauses(o, e) ==
+    IF e.c \notin DOMAIN o.conn THEN {} ELSE
+    LET cr == o.conn[e.c]
+        K == KOf(o, cr)
+        silence == e.ec = "aborted" /\ ~cr.closed /\ cr.cack = 1     \* cancelled by the read timer, not by close()
+    IN (IF silence /\ K = 0 THEN {"C12_c_TimedOutWithKeepAliveZero"} ELSE {})
+    \cup (IF silence /\ K > 0 /\ e.t - e.t0 < 1500 * K THEN {"C12_b_AbandonedBefore1_5K"} ELSE {})
+    \cup (IF cr.cack = 1 /\ K > 0 /\ e.nb = 0 /\ e.t - e.t0 > 1500 * K THEN {"C12_b_SilenceOutlasted1_5K"} ELSE {})
+
+\* ---- when virtual time has advanced: a PINGREQ that is overdue
+OverdueClauses(o, e) ==
+    IF \E c \in DOMAIN o.conn :
+          LET cr == o.conn[c]
+              base == IF cr.pingBase >= 0 THEN cr.pingBase ELSE cr.tEst
+          IN /\ cr.cack = 1 /\ ~cr.closed /\ KOf(o, cr) > 0 /\ ~o.terminal /\ o.running
+             /\ e.t > base + 1000 * KOf(o, cr)
+             /\ (cr.pingT = << >> \/ Last(cr.pingT) < base)           \* none handed over since
+             /\ ~\E w \in DOMAIN o.wr : o.wr[w].c = c /\ o.wr[w].res = 0   \* and no write in progress
+    THEN {"C12_a_PingMissing"} ELSE {}
+
 Viol(o, e) ==
     CASE e.e = "done"         -> DoneClauses(o, e)
+      [] e.e = "c_read_end"   -> ReadClauses(o, e)
+      [] e.e = "fire"         -> OverdueClauses(o, e)
       [] e.e = "c_pkt"        -> PktClauses(o, e)
       [] e.e = "b_recv"       -> BRecvClauses(o, e)
       [] e.e = "c_write"      -> WriteClauses(o, e)
       [] e.e = "attempt"      -> AttemptClauses(o, e)
       [] e.e = "stream_close" -> CloseClauses(o, e)
       [] e.e = "resolve"      -> ResolveClauses(o, e)
-      [] e.e = "quiesce_end"  -> QuiesceClauses(o, e)
+      [] e.e = "quiesce_end"  -> QuiesceClauses(o, e) \cup OverdueClauses(o, e)
       [] e.e = "drain"        -> DrainClauses(o, e)
       [] e.e = "end"          -> DrainClauses([o EXCEPT !.terminal = TRUE, !.termOrd = o.nops], e)
       [] e.e \in {"exception", "hang", "terminate"} -> {"C19_e_ExceptionOrHang"}
